@@ -22,7 +22,14 @@ inductive Op where
   | hash (h : Nat)
   | wd (h : Nat)
   | load (h : Nat)
+  | lput (h : Nat) (k v : Bytes)
   | gfd (h : Nat) (k : Bytes)
+  -- dot/state `InmemoryStorageState` (second harness run)
+  | store (h : Nat)
+  | evict (h : Nat)
+  | tstate (h : Nat)
+  | gs (h : Nat) (k : Bytes)
+  | ents (h : Nat)
   | bad
 
 structure St where
@@ -34,6 +41,10 @@ structure St where
   /-- ghost: some `PutIntoChild` gave a child trie the root hash of ANOTHER child trie of the same
       trie (region of the known finding `child-tries-equal-content`) -/
   aliased : Bool := false
+  /-- `Tries.rootToTrie`: root hash ↦ cached trie object = a handle (`true`) or a trie that
+      `LoadFromDB` built (`false`, index into `hidden`) -/
+  cache : List (Bytes × Bool × Nat) := []
+  hidden : List MTrie := []
 
 def St.init : St := { hp := Heap.empty, db := [], ts := [MTrie.empty], persisted := [] }
 
@@ -58,6 +69,32 @@ def view (H : Bytes → Bytes) (hp : Heap) (m : MTrie) : Heap × String :=
 def showGet : Option (Option Bytes) → String
   | none => "err"
   | some v => C02.showOpt v
+
+/-! ### `dot/state`: the cache of tries in front of the database -/
+
+def cacheGet (s : St) (root : Bytes) : Option (Bool × Nat) :=
+  match s.cache.find? (fun e => e.1 == root) with
+  | some e => some e.2
+  | none => none
+
+/-- `Tries.softSet` -/
+def softSet (s : St) (root : Bytes) (v : Bool × Nat) : St :=
+  match cacheGet s root with
+  | some _ => s
+  | none => { s with cache := s.cache ++ [(root, v)] }
+
+def cachedTrie (s : St) (v : Bool × Nat) : Option MTrie :=
+  if v.1 then s.ts[v.2]? else s.hidden[v.2]?
+
+/-- `InmemoryStorageState.LoadFromDB(root)`: load, cache under the loaded trie's own hash -/
+def loadFromDB (H : Bytes → Bytes) (s : St) (root : Bytes) : Option (St × Nat) :=
+  match loadF H s.db 3 s.hp root with
+  | none => none
+  | some (hp', lm) =>
+    let h := hash H hp' lm.t
+    let idx := s.hidden.length
+    let s1 := { s with hp := h.1, hidden := s.hidden ++ [lm] }
+    some (softSet s1 (h.2.getD []) (false, idx), idx)
 
 /-- one op of the model: new state, observable, Go panic -/
 def stepModel (H : Bytes → Bytes) (s : St) : Op → St × String × Bool
@@ -118,12 +155,100 @@ def stepModel (H : Bytes → Bytes) (s : St) : Op → St × String × Bool
       | some (hp', lm) =>
         let v := view H hp' lm
         ({ s with hp := v.1 }, "ok " ++ v.2, false)
+  | .lput h k v =>
+    match s.ts[h]? with
+    | none => (s, "bad-op", false)
+    | some m =>
+      let r := hash H s.hp m.t
+      match loadF H s.db 3 r.1 (r.2.getD []) with
+      | none => ({ s with hp := r.1 }, "err", false)
+      | some (hp', lm) =>
+        -- the reloaded trie is modified: its nodes must carry what later hashing needs
+        let p := put H hp' { lm.t with ver := m.t.ver } k v
+        let hh := hash H p.1 p.2
+        ({ s with hp := hh.1 }, "ok " ++ showHash hh.2 ++ " " ++ C03.showEntries hh.1 p.2, false)
   | .gfd h k =>
     match s.ts[h]? with
     | none => (s, "bad-op", false)
     | some m =>
       let r := hash H s.hp m.t
       ({ s with hp := r.1 }, showGet (getFromDB H s.db (r.2.getD []) k), false)
+  | .store h =>
+    match s.ts[h]? with
+    | none => (s, "bad-op", false)
+    | some m =>
+      let r := hash H s.hp m.t
+      let root := r.2.getD []
+      let s1 := softSet { s with hp := r.1 } root (true, h)
+      let w := m.writeDirty H s1.hp s1.db
+      ({ s1 with hp := w.1, db := w.2, persisted := root :: s1.persisted }, toHex root, false)
+  | .evict h =>
+    match s.ts[h]? with
+    | none => (s, "bad-op", false)
+    | some m =>
+      let r := hash H s.hp m.t
+      ({ s with hp := r.1, cache := s.cache.filter (fun e => !(e.1 == r.2.getD [])) }, "ok", false)
+  | .tstate h =>
+    match s.ts[h]? with
+    | none => (s, "bad-op", false)
+    | some m =>
+      let r := hash H s.hp m.t
+      let root := r.2.getD []
+      let s0 := { s with hp := r.1 }
+      match cacheGet s0 root with
+      | none =>
+        match loadFromDB H s0 root with
+        | none => (s0, "err", false)
+        | some (s1, idx) =>
+          let s2 := softSet s1 root (false, idx)
+          match s2.hidden[idx]? with
+          | none => (s2, "err", false)
+          | some lm =>
+            match lm.snapshot s2.hp with
+            | none => (s2, "panic", true)
+            | some sn => ({ s2 with hp := sn.1, ts := s2.ts ++ [sn.2] }, "h" ++ toString s2.ts.length, false)
+      | some v =>
+        match cachedTrie s0 v with
+        | none => (s0, "err", false)
+        | some ct =>
+          let hc := hash H s0.hp ct.t
+          if hc.2.getD [] != root then ({ s0 with hp := hc.1 }, "panic", true)
+          else
+            match ct.snapshot hc.1 with
+            | none => ({ s0 with hp := hc.1 }, "panic", true)
+            | some sn => ({ s0 with hp := sn.1, ts := s0.ts ++ [sn.2] }, "h" ++ toString s0.ts.length, false)
+  | .gs h k =>
+    match s.ts[h]? with
+    | none => (s, "bad-op", false)
+    | some m =>
+      let r := hash H s.hp m.t
+      let root := r.2.getD []
+      let s0 := { s with hp := r.1 }
+      match cacheGet s0 root with
+      | some v =>
+        match cachedTrie s0 v with
+        | some ct => (s0, C02.showOpt (get s0.hp ct.t.root k), false)
+        | none => (s0, "err", false)
+      | none => (s0, showGet (getFromDB H s0.db root k), false)
+  | .ents h =>
+    match s.ts[h]? with
+    | none => (s, "bad-op", false)
+    | some m =>
+      let r := hash H s.hp m.t
+      let root := r.2.getD []
+      let s0 := { s with hp := r.1 }
+      match cacheGet s0 root with
+      | some v =>
+        match cachedTrie s0 v with
+        | some ct => (s0, C03.showEntries s0.hp ct.t, false)
+        | none => (s0, "err", false)
+      | none =>
+        match loadFromDB H s0 root with
+        | none => (s0, "err", false)
+        | some (s1, idx) =>
+          match s1.hidden[idx]? with
+          | some lm => (s1, C03.showEntries s1.hp lm.t, false)
+          | none => (s1, "err", false)
   | .bad => (s, "bad-op", false)
 
 /-- what the property demands of `load` / `gfd` on the state `s` (`none`: no demand — the root of
@@ -135,12 +260,41 @@ def specOut (H : Bytes → Bytes) (s : St) : Op → Option String
     | some m =>
       let r := hash H s.hp m.t
       if s.persisted.contains (r.2.getD []) then some ("ok " ++ (view H r.1 m).2) else none
+  | .lput h k v =>
+    match s.ts[h]? with
+    | none => none
+    | some m =>
+      let r := hash H s.hp m.t
+      if s.persisted.contains (r.2.getD []) then
+        -- the same modification on a snapshot of the in-memory trie
+        let p := put H r.1 (snapshot m.t) k v
+        let hh := hash H p.1 p.2
+        some ("ok " ++ showHash hh.2 ++ " " ++ C03.showEntries hh.1 p.2)
+      else none
   | .gfd h k =>
     match s.ts[h]? with
     | none => none
     | some m =>
       let r := hash H s.hp m.t
       if s.persisted.contains (r.2.getD []) then some (C02.showOpt (get r.1 m.t.root k)) else none
+  | .gs h k =>
+    match s.ts[h]? with
+    | none => none
+    | some m =>
+      let r := hash H s.hp m.t
+      if s.persisted.contains (r.2.getD []) then some (C02.showOpt (get r.1 m.t.root k)) else none
+  | .ents h =>
+    match s.ts[h]? with
+    | none => none
+    | some m =>
+      let r := hash H s.hp m.t
+      if s.persisted.contains (r.2.getD []) then some (C03.showEntries r.1 m.t) else none
+  | .tstate h =>
+    match s.ts[h]? with
+    | none => none
+    | some m =>
+      let r := hash H s.hp m.t
+      if s.persisted.contains (r.2.getD []) then some ("h" ++ toString s.ts.length) else none
   | _ => none
 
 /-- model observables and specification observables of a run -/
@@ -183,9 +337,19 @@ def parseOp (s : String) : Op :=
   | ["hash", h] => match C03.parseHandle h with | some h => .hash h | none => .bad
   | ["wd", h] => match C03.parseHandle h with | some h => .wd h | none => .bad
   | ["load", h] => match C03.parseHandle h with | some h => .load h | none => .bad
+  | ["lput", h, k, v] => match C03.parseHandle h, ofHex? k, ofHex? v with
+    | some h, some k, some v => .lput h k v
+    | _, _, _ => .bad
   | ["gfd", h, k] => match C03.parseHandle h, ofHex? k with
     | some h, some k => .gfd h k
     | _, _ => .bad
+  | ["store", h] => match C03.parseHandle h with | some h => .store h | none => .bad
+  | ["evict", h] => match C03.parseHandle h with | some h => .evict h | none => .bad
+  | ["tstate", h] => match C03.parseHandle h with | some h => .tstate h | none => .bad
+  | ["gs", h, k] => match C03.parseHandle h, ofHex? k with
+    | some h, some k => .gs h k
+    | _, _ => .bad
+  | ["ents", h] => match C03.parseHandle h with | some h => .ents h | none => .bad
   | _ => .bad
 
 def parseLine (line : String) : List Op := (line.splitOn ";").map parseOp
